@@ -50,12 +50,15 @@ CHECKS = {
     "C12": dict(ref="6/C12", tech="TLC on Offsets.tla (layout of slots_strides vs. the emitter's and the consistency check's indexing, arity 1..6, interleaved-reading negative control) + real generator output parsed and validated by TLC against the installed layout; methods compiled with mutable static_offsets<> dispatch through the static path and are validated like C01",
                 text="For random registries with methods of arity 1..4 (shapes with non-virtual and virtual_ptr parameters) under 9 policies: the numbers written by write_static_offsets must equal the installed slots and strides position by position; loaded into static_offsets<> they must give the oracle's outcome tables; under checked policies each single perturbed number must be reported (static slot / stride error) on every call; repeated after a second update.",
                 note="the generated header is emulated by specialisations with mutable arrays filled with the parsed numbers; compiling the emitted text is not part of this check"),
+    "C13": dict(ref="6/C13", tech="TLC on Decode.tla (two-cursor model of the in-place decoder over the emitted layout; pre-repair variant as negative control) + real encode_dispatch_data output parsed, laid out exactly as declared and decoded by the real decoder with hook H4; fetch/store offsets and all post-decode outcome tables validated by TLC",
+                text="Random registries (v-tables not starting at slot 0, classes without entries, classes registered by several statements, uni- and multi-methods with error cells) under the three std-rtti policies: the emitted declaration must have non-negative sizes and no excess initialisers; every decoder fetch must lie in the encoded v-tables, every store in the decoded arrays, no store may overwrite a word fetched later; after decoding in a process where update never ran, every outcome table, error record and next slot must equal the oracle. Thorough repeats under AddressSanitizer with exact-size heap blocks.",
+                note="std-rtti policies only (the encoder demangles type_info names); the emitted text is parsed by the harness, not compiled"),
     "C17": dict(ref="6/C17", tech="TLC trace validation of update reports against HasGap/HasAmbiguity over all and over concrete-only tuples (ReportOK in Yomm2.tla)",
                 text="Every registry of the bounded universes x assignments of abstract flags (all 2^N for N<=3; thorough: all) is updated and the returned report compared with an enumeration of all class tuples by the oracle; cells is compared with the number of multi-method cells the compiler object holds.",
                 note="iff-content of the report only (counts are not compared, the statement does not define them)"),
 }
 
-HOOK_COMMITS = []
+HOOK_COMMITS = ["c31ffde", "1e0b5b6", "608f4ad"]
 
 
 def main():
